@@ -33,7 +33,7 @@ def run(ctx):
                  holds=(mbytes == "]]>]]>" and mlen == 6), key="C06/R2 MARKER-value")
     recv = TC.stream_receivers(fx)
     for kind, b in sorted(recv.items()):
-        stream_receiver(chk, fx, kind, b, mlen)
+        stream_receiver_paths(chk, fx, kind, b, mlen)
     pump(chk, fx, TC.ssh_pump(fx), mlen)
     sender(chk, fx)
 
@@ -130,6 +130,14 @@ def stream_receiver(chk, fx, kind, b, mlen):
         hcall, b, finds, splits = helper
         sym = TC.Sym(b, mlen)
         chk.analysed(b.name)
+    # bytes leave the receive buffer only as the message that is split off: anything else that shortens it (clear, truncate, advance,
+    # split_off ..) throws away what followed the delimiter in the same read
+    discards = [(p, e) for p in paths for e in p.trace if e[0] == "discard" and _buffer_root(e[1])[1]]
+    for (p, e) in discards[:4]:
+        chk.instance("C06/R4", "%s: the receive buffer is shortened only by split_to(end of message)" % kind, b.name, loc_of(e[3]), holds=False,
+                     key="C06/R4 %s buffer-discarded-by %s" % (fn, e[2]), detail="bytes after the delimiter (the next message, or its head) are lost")
+    if discards and not splits:
+        return
     chk.floor("C06 %s find/read/split sites" % kind, min(len(finds), len(reads), len(splits)), 1)
     chk.call_sites += len(finds) + len(reads) + len(splits)
     start_local = None
@@ -384,3 +392,203 @@ def sender(chk, fx):
             chk.instance("C06/R5", "impl ClientMsg for %s does not override to_xml/send" % it["self"], it["qdef"],
                          loc_of(it.get("sp")), holds=not over, key="C06/R5 ClientMsg-override %s" % T.strip_generics(it["self"]))
     chk.floor("C06/R5 ClientMsg impls", n, 2)
+
+
+# ---------------------------------------------------------------------------------------------
+# stream receivers (TLS, local CLI) decided on explored paths: one loop iteration per path, the offset that is carried round the loop
+# abstract, helpers and closures run inline.  What a path did is read off its trace: which haystack was searched, where the buffer
+# was split, what the offset was set to, and in which order relative to the read.
+# ---------------------------------------------------------------------------------------------
+_FX = [None]
+DISCARDING = ("BytesMut::clear", "BytesMut::truncate", "BytesMut::split", "BytesMut::split_off", "Buf::advance", "BytesMut::advance", "BytesMut::resize",
+              "Vec::clear", "Vec::truncate", "Vec::drain", "BytesMut::set_len")
+
+
+def _lin(v, mlen):
+    """Linear form of an offset expression: {term text: coefficient}, constants under ''.  MARKER.len() is the constant mlen; a named
+    constant stands for its initialiser."""
+    from vlib import absint as A
+    out = {}
+
+    def add(k, n):
+        out[k] = out.get(k, 0) + n
+        if out[k] == 0:
+            del out[k]
+
+    def go(x, sign):
+        if x[0] == "bin" and x[1] in ("Add", "Sub"):
+            go(x[2], sign)
+            go(x[3], sign if x[1] == "Add" else -sign)
+        elif x[0] == "term" and T.short(x[1], 2) in ("Add::add", "Sub::sub") and len(x[2]) == 2:
+            go(x[2][0], sign)
+            go(x[2][1], sign if T.short(x[1], 2) == "Add::add" else -sign)
+        elif x[0] == "lit" and isinstance(x[1], int):
+            add("", sign * x[1])
+        elif x[0] == "const" and len(x) == 2 and _FX[0] is not None and x[1] in _FX[0].thir and "MARKER" != x[1].rsplit("::", 1)[-1]:
+            ps = [p for p in A.Interp(_FX[0], crates=("netconf",)).explore(x[1]) if p.ret is not None]
+            if len(ps) == 1:
+                go(ps[0].ret, sign)
+            else:
+                add(A.vstr(x), sign)
+        elif A.vstr(x) in ("slice::len(message::MARKER)", "slice::len(MARKER)") or (x[0] == "term" and T.short(x[1], 2) == "slice::len" and "MARKER" in A.vstr(x)):
+            add("", sign * mlen)
+        else:
+            add(A.vstr(x), sign)
+    go(v, 1)
+    return out
+
+
+def _buffer_root(v):
+    """(root text, is-a-field-of-the-handle) of a buffer expression, through index / deref / as_ref wrappers."""
+    from vlib import absint as A
+    for _ in range(8):
+        if v[0] == "term" and v[2] and T.short(v[1], 2) in ("Index::index", "Deref::deref", "AsRef::as_ref", "DerefMut::deref_mut", "Borrow::borrow", "BytesMut::as_ref",
+                                                            "IndexMut::index_mut"):
+            v = v[2][0]
+        else:
+            break
+    txt = A.vstr(v)
+    return txt, (v[0] == "field" and "self" in A.vstr(v[1]))
+
+
+def stream_receiver_paths(chk, fx, kind, b, mlen):
+    from vlib import absint as A
+    _FX[0] = fx
+    chk.analysed(b.name)
+    fn = "transport::%s::Receiver::recv" % kind
+    if _last_occurrence_search(chk, fx, fn, b):
+        return
+
+    def explore(havoc):
+        n = [0]
+
+        def hook(f, args, node, interp):
+            s2 = T.short(f, 2)
+            if s2 in ("Finder::find", "memmem::find", "FinderRev::rfind") and len(args) >= 2:
+                n[0] += 1
+                interp.trace.append(("find", args[1], n[0], node.get("sp")))
+                return ("sym", "FOUND%d" % n[0])
+            if s2 == "BytesMut::split_to" and len(args) == 2:
+                interp.trace.append(("split", args[0], args[1], node.get("sp")))
+                return ("sym", "MESSAGE")
+            if s2 in ("AsyncReadExt::read_buf", "AsyncReadExt::read") and len(args) >= 2:
+                interp.trace.append(("read", args[1], node.get("sp")))
+                return ("term", "async-ready", (("sym", "READ"),))
+            if s2 in DISCARDING and args:
+                interp.trace.append(("discard", args[0], s2, node.get("sp")))
+            return None
+        it = A.Interp(fx, hook=hook, crates=("netconf",), max_paths=3000, havoc_loops=havoc)
+        return [p for p in it.explore(b.name) if p.end != "abort"]
+    paths = explore(True)
+    finds = [(p, e) for p in paths for e in p.trace if e[0] == "find"]
+    splits = [(p, e) for p in paths for e in p.trace if e[0] == "split"]
+    reads = [(p, e) for p in paths for e in p.trace if e[0] == "read"]
+    # bytes leave the receive buffer only as the message that is split off: anything else that shortens it (clear, truncate, advance,
+    # split_off ..) throws away what followed the delimiter in the same read
+    discards = [(p, e) for p in paths for e in p.trace if e[0] == "discard" and _buffer_root(e[1])[1]]
+    for (p, e) in discards[:4]:
+        chk.instance("C06/R4", "%s: the receive buffer is shortened only by split_to(end of message)" % kind, b.name, loc_of(e[3]), holds=False,
+                     key="C06/R4 %s buffer-discarded-by %s" % (fn, e[2]), detail="bytes after the delimiter (the next message, or its head) are lost")
+    if discards and not splits:
+        return
+    chk.floor("C06 %s find/read/split sites" % kind, min(len(finds), len(reads), len(splits)), 1)
+    chk.call_sites += len(finds) + len(reads) + len(splits)
+
+    def window(h):
+        """Start of the searched window: lit 0 for the whole buffer, else the start of the range it is sliced with."""
+        if h[0] == "term" and T.short(h[1], 2) in ("Index::index",) and len(h[2]) == 2:
+            r = h[2][1]
+            if r[0] == "adt" and r[2] in ("RangeFrom",):
+                return dict(r[3]).get("start")
+            return None
+        if h[0] == "term" and h[2] and T.short(h[1], 2) in ("Deref::deref", "AsRef::as_ref", "Borrow::borrow"):
+            return window(h[2][0])
+        return A.lit(0)
+    # R4: the buffers persist across calls
+    for (p, e) in reads[:1] + splits[:1] + finds[:1]:
+        root, in_handle = _buffer_root(e[1])
+        what = {"read": "read_buf destination", "split": "split_to receiver", "find": "searched buffer"}[e[0]]
+        key = {"read": "read-buffer-not-in-handle", "split": "split-buffer-not-in-handle", "find": "searched-buffer-not-in-handle"}[e[0]]
+        chk.instance("C06/R4", "%s: %s is a field of the handle (survives the call): %s" % (kind, what, root), b.name, loc_of(e[-1]), holds=in_handle,
+                     key="C06/R4 %s %s" % (fn, key))
+    roots = {_buffer_root(e[1])[0] for (_, e) in reads + splits + finds}
+    chk.instance("C06/R4", "%s: bytes are read into, searched in and split off one buffer (%s)" % (kind, sorted(roots)), b.name, None, holds=len(roots) == 1,
+                 key="C06/R4 %s several-buffers" % fn)
+    # R2: split position = window start + index of the find + MARKER.len()
+    for (p, e) in splits:
+        prior = [x for x in p.trace[:p.trace.index(e)] if x[0] == "find"]
+        ok, detail = False, "no search before the split"
+        if prior:
+            f = prior[-1]
+            st = window(f[1])
+            want = _lin(st, mlen) if st is not None else None
+            if want is not None:
+                want = dict(want)
+                want["«FOUND%d»→Some.0" % f[2]] = want.get("«FOUND%d»→Some.0" % f[2], 0) + 1
+                want[""] = want.get("", 0) + mlen
+                got = _lin(e[2], mlen)
+                ok = got == want
+                detail = "split at %s; searched from %s" % (A.vstr(e[2])[:80], A.vstr(st)[:40])
+        chk.instance("C06/R2", "%s: split position = start + index + MARKER.len()" % kind, b.name, loc_of(e[3]), holds=ok, key="C06/R2 %s split-position" % fn,
+                     detail=detail)
+    # R1: the window start is 0 when recv is entered and, when carried round the loop, buf.len() minus at least MARKER.len()-1,
+    # computed before the read
+    carried = set()
+    for (p, e) in finds:
+        st = window(e[1])
+        if st is None:
+            chk.instance("C06/R1", "%s: haystack of find has an unrecognised form" % kind, b.name, loc_of(e[3]), holds=False, key="C06/R1 %s unrecognised-haystack" % fn,
+                         detail=A.vstr(e[1])[:100])
+            continue
+        if st == A.lit(0):
+            chk.instance("C06/R1", "%s: whole receive buffer searched" % kind, b.name, loc_of(e[3]), holds=True)
+            continue
+        if st[0] == "sym" and st[1].startswith("loop:"):
+            carried.add(st[1][5:])
+            continue
+        in_self = st[0] == "field" and "self" in A.vstr(st[1])
+        chk.instance("C06/R1", "%s: search window starts at a per-call offset (not at %s)" % (kind, A.vstr(st)[:50]), b.name, loc_of(e[3]), holds=False,
+                     key="C06/R1 %s search-window-start %s" % (fn, "kept-in-the-handle" if in_self else A.vstr(st)[:40]),
+                     detail="an offset that outlives the call points past bytes the next call has not searched" if in_self else None)
+    for var in sorted(carried):
+        first = [window(e[1]) for p in explore(False) for e in p.trace if e[0] == "find"][:1]
+        chk.instance("C06/R1", "%s: the search offset `%s` is 0 when recv is entered" % (kind, var), b.name, None, holds=first == [A.lit(0)],
+                     key="C06/R1 %s search-window-start initial" % fn, detail=A.vstr(first[0])[:60] if first and first[0] is not None else None)
+        for p in paths:
+            asg = [a for a in p.assigns(var)]
+            rd = [e for e in p.trace if e[0] == "read"]
+            for a in asg:
+                v = a[2]
+                good, why = False, A.vstr(v)[:80]
+                if v == A.lit(0):
+                    good = True
+                elif v[0] == "term" and T.short(v[1], 2) in ("num::saturating_sub", "usize::saturating_sub") and len(v[2]) == 2:
+                    ln, k = v[2]
+                    kk = _lin(k, mlen)
+                    is_len = ln[0] == "term" and T.short(ln[1], 2) in ("BytesMut::len", "Vec::len", "slice::len") and _buffer_root(ln[2][0])[0] in roots
+                    good = is_len and set(kk) <= {""} and kk.get("", 0) >= mlen - 1
+                    why = "buf.len() - %s" % kk.get("", "?")
+                chk.instance("C06/R1", "%s: search window start %s keeps a split delimiter visible" % (kind, why), b.name, loc_of(a[3]), holds=good,
+                             key="C06/R1 %s search-window-start %s" % (fn, why))
+                # computed from the length before the read
+                if rd:
+                    before = p.trace.index(("assign", a[1], a[2], a[3])) < p.trace.index(rd[0])
+                    chk.instance("C06/R1", "%s: the offset is taken before the read (from the length already searched)" % kind, b.name, loc_of(a[3]), holds=before,
+                                 key="C06/R1 %s search-window-start after-read" % fn)
+            if rd and p.end == "iter-end" and not asg:
+                chk.instance("C06/R1", "%s: the search offset is updated before more input is awaited" % kind, b.name, loc_of(rd[0][2]), holds=False,
+                             key="C06/R1 %s search-window-start not-updated" % fn)
+    # R3: a search precedes every read, and a read is followed by a search before the next read
+    for p in paths:
+        evs = [e for e in p.trace if e[0] in ("find", "read")]
+        for i, e in enumerate(evs):
+            if e[0] != "read":
+                continue
+            searched_before = any(x[0] == "find" for x in evs[:i])
+            chk.instance("C06/R3", "%s: the buffer is searched before waiting for more input" % kind, b.name, loc_of(e[2]), holds=searched_before,
+                         key="C06/R3 %s read-without-search" % fn)
+            prev_reads = [j for j, x in enumerate(evs[:i]) if x[0] == "read"]
+            if prev_reads:
+                between = any(x[0] == "find" for x in evs[prev_reads[-1] + 1:i])
+                chk.instance("C06/R3", "%s: after a read the buffer is searched again before the next read" % kind, b.name, loc_of(e[2]), holds=between,
+                             key="C06/R3 %s reread-without-search" % fn)
